@@ -80,6 +80,9 @@ def streams(tier, rng, P, only=None, cases=None):
                     "INT A=(1", "PRINT(MID({あ},1,1))", "[0 c]", "[-1 c]", "TR(-1) c", "CH(99) c", "o99 c", "q-5 c", "l0 c", "c0", "{}", "{ }0", "'c'0", "TIME(0:0:0) c", "TimeSignature(0,0) TIME(2:1:0) c",
                     "Tempo(0)", "TempoChange(1,2,0)", "TempoChange(10,20)", "Fadein(0)", "Cresc(0)", "Decresc=", "DeviceNumber()", "KeyFlag", "KeyFlag=(", "UseKeyShift(", "System.TimeBase=0", "PlayFrom()",
                     "GSScaleTuning(1,2)", "GSEffect()", "GSReverbMacro()", "Port()", "MetaText", "TrackName=", "Voice()", "NoteOn(1)", "DirectSMF()", "RPN(1)", "NRPN()", "A(1)", "ARRAY A=(1,2) PRINT(A(5)) PRINT(A(-1))",
+                    # every index around the ends of an array or string, the empty array, indices computed in a loop
+                    "Array A=(1,2,3) Print(A(3))", "ARRAY A=(1,2,3) PRINT(A(2)) PRINT(A(3)) PRINT(A(4)) PRINT(A(0)) PRINT(A(0-1))", "Array A=(60,64,67) FOR(Int I=0; I<=SizeOf(A); I++){ Int N=A(I) Print(N) }",
+                    "ARRAY E=() PRINT(E(0)) PRINT(SizeOf(E))", "ARRAY A=(7) PRINT(A(1)) INT K=A(1) n(K)", "STR S={abc} PRINT(S(3)) PRINT(S(2)) PRINT(S(0))", "ARRAY A=(1,2) INT I=SizeOf(A) PRINT(A(I)) A(I)",
                     "STR S={a} PRINT(S(1))", "FUNCTION F(){ F2() }", "F(1)", "RETURN(1)", "BREAK", "CONTINUE", "ELSE{c}", "IF(1)", "WHILE(1)", "FOR(", "FOR(;;){BREAK}", "#A #A", "#A={#?1} #A", "Rhythm{(", "Rhythm{Sub", "R{$}", "$", "$=", "v.onNote() c", "v.onNote(=) c",
                     "y1.onNote() c", "y.onTime c", "p.onTime() c", "PB.T c", "l.onNote() c", "o.onCycle() c", "t.onNote(1,) c", "q.Random() c", "v.onTime(1,2) c", "v.onTime(0,1,0) c", "M.onTime(0,127,0) c", "M.onTime(0,127,-5) c", "Slur(9) c&d e", "c& &d e", "n& c", "r& c",
                     "Sub{", "Div{c}-4", "{c}%0", "c%-5 d", "l%-9 c d", "r-1 c", "c,,,-999 d", "TIME(-5) c", "PlayFrom(-1) c", "PlayFrom(99:1:0) c", "? ? c",
